@@ -2,7 +2,9 @@
    corrupt state" at the task level (Model/TaskMsg.v, see Props/C09.v). *)
 From Coq Require Import List Bool Arith ZArith Lia.
 From Cylc Require Import Base.Util Gen.TaskMsgTables Model.TaskMsg
-  Proofs.TaskMsgProofs Proofs.TaskMsgInv Proofs.TaskMsgEdges Proofs.TaskMsgFinal.
+  Proofs.TaskMsgProofs Proofs.TaskMsgInv Proofs.TaskMsgEdges Proofs.TaskMsgFinal
+  Model.TaskBatch Proofs.TaskBatchProofs.
+From Coq Require Import Permutation.
 Import ListNotations.
 
 (* "A message received from a job with an older [any other] submit number never
@@ -94,6 +96,59 @@ Proof.
   apply H; auto; intros K; exact K.
 Qed.
 
+(* ---------- batch level: Scheduler.process_queued_task_messages for one task
+   (Model/TaskBatch.v; tied to the code by the "taskbatch" stream) ---------- *)
+
+(* "triggers a poll": the task is handed to poll_task_jobs iff SOME message of
+   its batch - not just the last one - made process_message return True at the
+   point where it was processed ... *)
+Theorem c10_batch_poll_iff_some_message : forall t l,
+  b_poll (task_batch t l) = true <->
+  exists l1 x l2, l = l1 ++ x :: l2 /\
+    asked_poll (snd (deliver (final t (map to_op l1)) x)) = true.
+Proof. exact batch_poll_iff. Qed.
+
+(* ... i.e., for every reachable task, iff the batch contains a message for the
+   current submit number that would move the status (as it is when the message
+   is reached) backwards. *)
+Theorem c10_batch_poll_iff_backward : forall n m k pre l,
+  let t := final (fresh n m k) pre in
+  b_poll (task_batch t l) = true <->
+  exists l1 x l2, l = l1 ++ x :: l2 /\ asks (st (final t (map to_op l1))) x = true.
+Proof. intros. apply batch_poll_backward. apply wf_run. Qed.
+
+(* A batch is the sequence of its single-message batches: same final task, same
+   spawn/retry effects, poll decisions OR-ed; and the final task is the one the
+   messages produce when delivered one by one (so every single-message theorem
+   above applies inside a batch). *)
+Theorem c10_batch_is_sequence_of_singles : forall t l,
+  task_batch t l = singles t l /\ b_state (task_batch t l) = final t (map to_op l).
+Proof. intros. split; [apply batch_singles|apply batch_state]. Qed.
+
+(* The order of the batch is irrelevant for the poll decision (and the status)
+   when the batch consists of stale messages, custom/progress messages and
+   messages that would move the status backwards - the situation of duplicated
+   and late messages: any permutation polls iff the original does. *)
+Theorem c10_batch_order_irrelevant : forall n m k pre l l',
+  let t := final (fresh n m k) pre in
+  Permutation l l' -> forallb (neutral (st t)) l = true ->
+  b_poll (task_batch t l) = b_poll (task_batch t l') /\
+  st (b_state (task_batch t l)) = st (b_state (task_batch t l')).
+Proof. intros. apply batch_poll_order; [apply wf_run|assumption|assumption]. Qed.
+
+(* a task that is not in the pool is neither changed nor polled *)
+Theorem c10_batch_not_in_pool : forall t l, queued false t l = (t, [], false).
+Proof. reflexivity. Qed.
+
+(* "only the last message of the batch decides" is not the same function: a late
+   'started' for a failed task followed by a progress message must still poll *)
+Theorem c10_batch_last_only_refuted :
+  ~ (forall t l, b_poll (task_batch t l) = last_only t l).
+Proof.
+  intros H. destruct last_only_differs as [A B]. cbn zeta in A, B.
+  rewrite H in A. rewrite A in B. discriminate B.
+Qed.
+
 (* ---------- non-vacuity ---------- *)
 (* duplicates, a stale message, started before the submit result, a poll *)
 Example c10_ex_story :
@@ -108,3 +163,9 @@ Example c10_ex_backward :
   process_message (final (fresh 0 0 0) [OpPrep; OpMsg MSucceeded Polled 0%Z]) MStarted Received 1%Z
   = (final (fresh 0 0 0) [OpPrep; OpMsg MSucceeded Polled 0%Z], [EPoll]).
 Proof. vm_compute. reflexivity. Qed.
+Example c10_ex_batch :
+  let t := final (fresh 0 0 1) [OpPrep; OpMsg MStarted Received 0%Z; OpMsg MSucceeded Received 0%Z] in
+  let l := [(MCustom 0, 0%Z); (MStarted, 0%Z); (MFailed, (-1)%Z); (MOther, 0%Z)] in
+  forallb (neutral (st t)) l = true /\ b_poll (task_batch t l) = true /\
+  b_poll (task_batch t (rev l)) = true /\ st (b_state (task_batch t l)) = Succeeded.
+Proof. vm_compute. auto. Qed.
